@@ -1,8 +1,11 @@
 import Amshan.Lemmas.GenCodeHdlc
 /-
   C01 (tie by translation) — the HdlcFrameHeader accessors frame_format, frame_format_type,
-  segmentation, frame_length and information_position, mechanically translated from the source, equal
-  the model's accessors.
+  segmentation, frame_length, information_position, control, header_check_sequence, destination_address,
+  source_address, the helpers _get_address (a `while True:` loop) and _get_control_field_position, update(),
+  and the HdlcFrame accessors is_good_ffc, is_expected_length, frame_check_sequence, payload, is_valid,
+  mechanically translated from the source, equal the model's accessors.  All equalities are unconditional:
+  they hold for every `data` / cached control position / FCS register, reachable or not.
 -/
 namespace Amshan.C01
 open Amshan.Hdlc Amshan.GenCode
@@ -21,5 +24,64 @@ theorem gen_frameLength (f : Frame) : hdlcFrameLength f.data = f.frameLength := 
 
 theorem gen_infoPos (f : Frame) : hdlcInformationPosition f.ctlPos = f.infoPos := by
   exact GenLemmas.hdlcInformationPosition_eq f
+
+/-! ### fields at the cached control position -/
+
+theorem gen_control (f : Frame) : hdlcControl f.data f.ctlPos = f.control := by
+  exact GenLemmas.hdlcControl_eq f
+
+theorem gen_hcs (f : Frame) : hdlcHeaderCheckSequence f.data f.ctlPos = f.hcs := by
+  exact GenLemmas.hdlcHeaderCheckSequence_eq f
+
+/-! ### addresses and the control position -/
+
+/-- The `while True:` loop of `_get_address`, translated as recursion on fuel: whatever is answered when the
+    fuel runs out (`oof`), with more fuel than octets left it is the model's `getAddressFrom` — so the loop
+    always leaves by one of its `return`s before the fuel `len(frame) + 1` granted by `hdlcGetAddress` is used. -/
+theorem gen_getAddress_loop (data : List Nat) (position : Nat) (oof : Option (List Nat))
+    (fuel : Nat) (adr : List Nat) (i cur : Nat) (hi : i ≤ data.length) (hfuel : data.length < fuel + i) :
+    hdlcGetAddress.loop1 data position oof fuel adr i data cur = (getAddressFrom (data.drop i)).map (adr ++ ·) := by
+  exact GenLemmas.hdlcGetAddress_loop_eq data position oof fuel adr i cur hi hfuel
+
+theorem gen_getAddress (data : List Nat) (position : Nat) : hdlcGetAddress data position = getAddress data position := by
+  exact GenLemmas.hdlcGetAddress_eq data position
+
+theorem gen_dest (f : Frame) : hdlcDestinationAddress f.data = f.dest := by
+  exact GenLemmas.hdlcDestinationAddress_eq f.data
+
+theorem gen_src (f : Frame) : hdlcSourceAddress f.data = f.src := by
+  exact GenLemmas.hdlcSourceAddress_eq f.data
+
+theorem gen_controlPos (data : List Nat) : hdlcGetControlFieldPosition data = controlPos data := by
+  exact GenLemmas.hdlcGetControlFieldPosition_eq data
+
+/-- `HdlcFrameHeader.update()`, as called by `HdlcFrame.append(b)` after the octet has been stored: the cached
+    control position it leaves is the one of `Frame.append` (for any state of the unmodelled `_is_header_good`). -/
+theorem gen_update (f : Frame) (b : Nat) (isGoodFfc : Bool) (isHeaderGood : Option Bool) :
+    (hdlcHeaderUpdate (f.data ++ [b]) isGoodFfc f.ctlPos isHeaderGood).1 = (f.append b).ctlPos := by
+  exact GenLemmas.hdlcHeaderUpdate_append f b isGoodFfc isHeaderGood
+
+/-! ### HdlcFrame -/
+
+theorem gen_isGoodFfc (f : Frame) : hdlcIsGoodFfc (Fcs.isGood f.crc) = f.isGoodFfc := by
+  exact GenLemmas.hdlcIsGoodFfc_eq f
+
+theorem gen_isExpectedLength (f : Frame) : hdlcIsExpectedLength f.data = f.isExpectedLength := by
+  exact GenLemmas.hdlcIsExpectedLength_eq f
+
+theorem gen_fcsField (f : Frame) : hdlcFrameCheckSequence f.data f.ctlPos = f.fcsField := by
+  exact GenLemmas.hdlcFrameCheckSequence_eq f
+
+/-- the truncated `len - 2` / `len - 1` of the translation are the Python indices whenever a value is returned -/
+theorem gen_fcsField_guard (data : List Nat) (ctlPos : Option Nat)
+    (h : (hdlcFrameCheckSequence data ctlPos).isSome) : 3 ≤ data.length := by
+  exact GenLemmas.hdlcFrameCheckSequence_guard data ctlPos h
+
+theorem gen_payload (f : Frame) : hdlcPayload f.data f.ctlPos = f.payload := by
+  exact GenLemmas.hdlcPayload_eq f
+
+/-- `is_valid` (the warning it logs is dropped) -/
+theorem gen_isValid (f : Frame) : hdlcIsValid f.isGoodFfc f.data = f.isValid := by
+  exact GenLemmas.hdlcIsValid_eq f
 
 end Amshan.C01
